@@ -2,7 +2,7 @@
 C20 — Python views of dense vectors agree with the C++ objects they wrap.
 
 Executable model of the Python bindings of dune-common's dense vectors
-(dune/python/common/{densevector,fvector,dynvector,vector,numpyvector,tuplevector}.hh,
+(dune/python/common/{densevector,fvector,dynvector,vector,numpyvector,tuplevector,string}.hh,
 python/dune/common/__init__.py).  Core Lean only.
 
 Values are integer-valued doubles (`Int`); a vector's storage is a *block* of a shared store; a Python
@@ -10,10 +10,13 @@ object / NumPy view / tuple-vector entry denotes cells of a block, so aliasing i
 
 * plain vector operations (`vadd`, `vsub`, `vscale`, `vneg`, `vdot`, norms): what the C++ `DenseVector`
   operators compute on the entries;
-* binding level (`construct`, `constructLoop`, `normIndex`, `getItem`, `setItem`, `py…`): what the lambdas
-  registered with pybind11 do (build an operand from a list, copy-then-`*=`, index normalisation, …);
-* store level (`State`, `step`): short programs of bound operations over registers, the unit the
-  correspondence check runs against the real bindings.
+* binding level (`construct`, `constructLoop`, `constructBuf`, `normIndex`, `getItem`, `setItem`, `pyIter`,
+  `joinLoop`, `py…`): what the lambdas registered with pybind11 do (build an operand from a list, tuple or
+  strided buffer, copy-then-`*=`, index normalisation, the legacy iteration protocol, string conversion, …);
+* store level (`State`, `Eff`, `vecEff`, `tupStep`, `step`, `run`): short programs of bound operations over
+  registers, the unit the correspondence check runs against the real bindings.  A vector operation is first
+  turned into an *effect* (`vecEff`: which cells are written / which register is bound to which block) and the
+  effect is then applied to the store (`Eff.apply`); the invariant proofs treat the two halves separately.
 -/
 namespace DV.C20
 
@@ -49,13 +52,26 @@ def twoNorm2 (a : List Int) : Int := a.foldl (fun s e => s + e * e) 0
 /-- the specification of construction from a sequence: the first `n` numbers, zero-filled -/
 def construct (n : Nat) (xs : List Int) : List Int := (xs ++ List.replicate n 0).take n
 
-/-- what `registerFieldVector`'s list/tuple/args/buffer constructors do:
+/-- what `registerFieldVector`'s list/tuple/args constructors (and `copy(*args)`) do:
     `FV *self = new FV(K(0)); for (i = 0; i < min(size, x.size()); ++i) (*self)[i] = x[i];` -/
 def constructLoop (n : Nat) (xs : List Int) : List Int :=
   (List.range (min n xs.length)).foldl (fun acc i => acc.set i (xs.getD i 0)) (List.replicate n 0)
 
+/-- entry `j` of a one-dimensional buffer: `static_cast<K*>(info.ptr)[j*stride]` (pointer `off`, stride in elements) -/
+def bufEntry (mem : List Int) (off stride : Int) (j : Nat) : Int := mem.getD (off + (j : Int) * stride).toNat 0
+
+/-- what `registerFieldVector`'s buffer constructor does:
+    `sz = min(size, info.shape[0]); FV *self = new FV(K(0)); for (i = 0; i < sz; ++i) (*self)[i] = ptr[i*stride];` -/
+def constructBuf (n : Nat) (mem : List Int) (off stride : Int) (shape : Nat) : List Int :=
+  (List.range (min n shape)).foldl (fun acc i => acc.set i (bufEntry mem off stride i)) (List.replicate n 0)
+
+/-- `registerDynamicVector`'s list constructor: `DV *self = new DV(size, K(0)); for (i < size) (*self)[i] = x[i];` -/
+def dynConstructLoop (xs : List Int) : List Int :=
+  (List.range xs.length).foldl (fun acc i => acc.set i (xs.getD i 0)) (List.replicate xs.length 0)
+
 /-- `registerDenseVector`'s index normalisation (Python semantics): `if (i < 0) i += size;`
-    `if (i < 0 || i >= size) throw index_error();` -/
+    `if (i < 0 || i >= size) throw index_error();`  (a Python int that does not fit into `ssize_t` reaches the
+    second overload, which throws `index_error` as well: the result is `none` for every such `i` anyway) -/
 def normIndex (n : Nat) (i : Int) : Option Nat :=
   let j := if i < 0 then i + (n : Int) else i
   if j < 0 ∨ j ≥ (n : Int) then none else some j.toNat
@@ -70,6 +86,26 @@ def setItem (v : List Int) (i : Int) (x : Int) : Except Err (List Int) :=
   | none => .error .index
   | some p => .ok (v.set p x)
 
+/-- Python's iteration over an object that has `__getitem__` but no `__iter__` (the dense vectors): call
+    `__getitem__(0)`, `__getitem__(1)`, … until `IndexError`.  `fuel` bounds the number of calls. -/
+def iterFrom (v : List Int) : Nat → Nat → List Int
+  | _, 0 => []
+  | i, fuel + 1 =>
+    match getItem v (i : Int) with
+    | .ok x => x :: iterFrom v (i + 1) fuel
+    | .error _ => []
+
+def pyIter (v : List Int) : List Int := iterFrom v 0 (v.length + 1)
+
+/-- `Dune::Python::join` (string.hh): `for (s = f(*begin++); begin != end; s += f(*begin++)) s += delimiter;` -/
+def joinLoop (d : String) : List String → String
+  | [] => ""
+  | x :: xs => xs.foldl (fun s y => s ++ d ++ y) x
+
+/-- `to_string(FieldVector)` / DynamicVector's `__repr__` body: `"(" + join(", ", entries) + ")"`; the entries are
+    printed canonically (integer-valued doubles) -/
+def pyStr (v : List Int) : String := "(" ++ joinLoop ", " (v.map toString) ++ ")"
+
 /-- `__neg__`: `T *copy = new T(self); *copy *= ValueType(-1);` -/
 def pyNeg (v : List Int) : List Int := vscale (-1) v
 /-- `__add__(self, list x)`: `self + x.cast<T>()` (the cast goes through the list constructor) -/
@@ -83,6 +119,14 @@ def pyRsubList (n : Nat) (L v : List Int) : List Int := vsub (constructLoop n L)
 def pyMul (v : List Int) (k : Int) : List Int := vscale k v
 /-- `__rsub__(self, int 0)` for vectors of dimension > 1: copy, `*copy *= ValueType(-1)` -/
 def pyRsubZero (v : List Int) : List Int := vscale (-1) v
+/-- `registerScalarCopyingDenseVectorMethods` for `FieldVector<K,1>`: `__add__`, `__sub__`, `__radd__`, `__rsub__`
+    with an `int` or a `ValueType`: `(*copy)[0] += a`, `-= a`, `= a + (*copy)[0]`, `= a - (*copy)[0]` -/
+def pyScalar (isSub reflected : Bool) (c a : Int) : Int :=
+  match isSub, reflected with
+  | false, false => c + a
+  | true, false => c - a
+  | false, true => a + c
+  | true, true => a - c
 
 /-! ## Python slices (CPython's `PySlice_AdjustIndices`, used by the NumPy view the bindings hand out) -/
 
@@ -162,48 +206,10 @@ def State.viewWrite (s : State) (v : View) (vals : List Int) : State :=
 
 def fullView (b n : Nat) : View := { blk := b, off := 0, step := 1, len := n }
 
-/-! ## programs -/
-
-inductive CtorHow where
-  | list | tuple | args | np | nps | buf | zero | fac
-  deriving DecidableEq, Repr
-
-inductive SOp where
-  | add | sub | mul | div
-  deriving DecidableEq, Repr
-
-inductive Op where
-  | new (x : Nat) (how : CtorHow) (L : List Int)
-  | copy (x y : Nat) | mcopy (x y : Nat) | alias (x y : Nat)
-  | binvv (isSub : Bool) (x y z : Nat)
-  | binvl (isSub reflected : Bool) (x y : Nat) (L : List Int)
-  | scal (which : SOp) (x y : Nat) (k : Int)          -- mul, rmul, div ; neg = mul by -1
-  | neg (x y : Nat)
-  | intscal (isSub reflected : Bool) (x y : Nat) (k : Int)
-  | inplaceV (isSub : Bool) (x y : Nat)
-  | inplaceL (isSub : Bool) (x : Nat) (L : List Int)
-  | inplaceS (which : SOp) (x : Nat) (k : Int)
-  | assign (x y : Nat)
-  | set (x : Nat) (i k : Int)
-  | get (x : Nat) (i : Int)
-  | len (x : Nat) | iter (x : Nat) | str (x : Nat)
-  | slice (x : Nat) (i j s : Option Int)
-  | cmpv (neg : Bool) (x y : Nat)
-  | cmpl (neg : Bool) (x : Nat) (L : List Int)
-  | norms (x : Nat) | dot (x y : Nat) | dotl (x : Nat) (L : List Int) | float (x : Nat)
-  | view (a x : Nat) | npcopy (a x : Nat) | sl (a x : Nat) (i j s : Option Int)
-  | aget (a : Nat) (i : Int) | aset (a : Nat) (i k : Int) | alist (a : Nat)
-  | nscale (a : Nat) (k : Int) | nset (a : Nat) (i k : Int) | nget (a : Nat) (i : Int) | nnorms (a : Nat)
-  | naxpy (a : Nat) (k : Int) (b : Nat) | nrun (a : Nat)
-  | tnew (t : Nat) (V : List Int)
-  | tlen (t : Nat) | tget (t : Nat) (i : Int) | tlist (t : Nat)
-  | tsetd (t : Nat) (i k : Int) | tseti (t : Nat) (i k : Int) | tsetf (t : Nat) (i : Int) (L : List Int)
-  | elem (src : Bool) (t : Nat) (i j k : Int)
-  | tcopy (t u : Nat) | tassign (t u : Nat)
-  deriving Repr
-
 def BOUND : Int := 16777216
 def IBOUND : Int := 1099511627776
+def TWO63 : Int := 9223372036854775808
+def TWO64 : Int := 18446744073709551616
 
 def okVals (l : List Int) : Bool := l.all fun e => decide (iabs e ≤ BOUND)
 def okInt (k : Int) : Bool := decide (iabs k ≤ BOUND)
@@ -212,14 +218,96 @@ def okIdx (i : Int) : Bool := decide (iabs i ≤ IBOUND)
 def showInts (l : List Int) : String := "[" ++ ",".intercalate (l.map toString) ++ "]"
 def showBool (b : Bool) : String := if b then "true" else "false"
 
-/-- sizes of `FieldVector<double,n>` the harness builds -/
-def fvSizes : List Nat := [1, 2, 3, 4, 5, 6, 9]
+/-! ## effects: what a bound vector operation does to the store -/
 
-/-- the operand a list turns into: for FieldVector the list constructor, for DynamicVector the list itself -/
-def Kind.construct (kd : Kind) (L : List Int) : List Int :=
-  match kd with
-  | .fv n => constructLoop n L
-  | _ => L
+inductive Eff where
+  | obs (o : String)                           -- nothing changes
+  | newX (x : Nat) (v : List Int)              -- a new vector object holding `v`, bound to register `x`
+  | aliasX (x b : Nat)                         -- register `x` now names the existing vector with cells `b`
+  | writeB (b : Nat) (v : List Int)            -- the cells `b` of a vector are overwritten with `v`
+  | bindA (a : Nat) (v : View)                 -- array register `a` becomes a view of existing cells
+  | newA (a : Nat) (v : List Int)              -- array register `a` becomes a fresh array holding `v`
+  | writeCell (v : View) (p : Nat) (k : Int)   -- entry `p` of a view is written
+  | writeView (v : View) (vals : List Int)     -- all entries of a view are written
+  deriving Repr
+
+def Eff.apply (s : State) : Eff → State × String
+  | .obs o => (s, o)
+  | .newX x v => ((s.alloc v).1.bindX x (s.alloc v).2, showInts v)
+  | .aliasX x b => (s.bindX x b, showInts (s.read b))
+  | .writeB b v => (s.write b v, showInts v)
+  | .bindA a v => (s.bindA a v, showInts (s.viewVals v))
+  | .newA a v => ((s.alloc v).1.bindA a (fullView (s.alloc v).2 v.length), showInts v)
+  | .writeCell v p k =>
+    ((s.write v.blk ((s.read v.blk).set (v.pos p) k)),
+     showInts ((s.write v.blk ((s.read v.blk).set (v.pos p) k)).viewVals v))
+  | .writeView v vals => (s.viewWrite v vals, showInts ((s.viewWrite v vals).viewVals v))
+
+/-! ## programs -/
+
+/-- how a vector is constructed; `buf s`: from a one-dimensional buffer of doubles with stride `s` (NumPy array,
+    strided / reversed NumPy view, `array.array`); `badbuf`: a buffer the constructor must reject (wrong item type,
+    two-dimensional) -/
+inductive CtorHow where
+  | list | tuple | args | buf (s : Int) | zero | fac | ilist | ituple | iargs | badbuf
+  deriving DecidableEq, Repr
+
+/-- Python kind of an operand standing for a vector -/
+inductive OKind where
+  | list | tuple | buf (s : Int)
+  deriving DecidableEq, Repr
+
+inductive OStat where
+  | ok | type | na
+  deriving DecidableEq, Repr
+
+inductive SOp where
+  | add | sub | mul | div
+  deriving DecidableEq, Repr
+
+inductive VOp where
+  | new (x : Nat) (how : CtorHow) (L : List Int)
+  | copy (x y : Nat) | mcopy (x y : Nat) | mcopya (x y : Nat) (L : List Int) | alias (x y : Nat)
+  | binvv (isSub : Bool) (x y z : Nat)
+  | binvl (isSub reflected : Bool) (ok : OKind) (x y : Nat) (L : List Int)
+  | scal (which : SOp) (isInt : Bool) (x y : Nat) (k : Int)          -- mul, rmul, div, __div__
+  | neg (x y : Nat)
+  | intscal (isSub reflected isFloat : Bool) (x y : Nat) (k : Int)
+  | inplaceV (isSub : Bool) (x y : Nat)
+  | inplaceL (isSub : Bool) (ok : OKind) (x : Nat) (L : List Int)
+  | inplaceS (which : SOp) (x : Nat) (k : Int)
+  | assign (x y : Nat)
+  | assignL (ok : OKind) (x : Nat) (L : List Int)
+  | set (npidx : Bool) (x : Nat) (i k : Int)
+  | get (npidx : Bool) (x : Nat) (i : Int)
+  | len (x : Nat) | iter (x : Nat) | str (x : Nat)
+  | slice (x : Nat) (i j s : Option Int)
+  | cmpv (neg : Bool) (x y : Nat)
+  | cmpl (neg : Bool) (ok : OKind) (x : Nat) (L : List Int)
+  | norms (x : Nat) | dot (x y : Nat) | dotl (ok : OKind) (x : Nat) (L : List Int) | float (x : Nat)
+  | view (a x : Nat) | npcopy (a x : Nat) | sl (a x : Nat) (i j s : Option Int)
+  | aget (a : Nat) (i : Int) | aset (a : Nat) (i k : Int) | alist (a : Nat)
+  | nscale (a : Nat) (k : Int) | nset (a : Nat) (i k : Int) | nget (a : Nat) (i : Int) | nnorms (a : Nat)
+  | naxpy (a : Nat) (k : Int) (b : Nat) | nadd (a b : Nat) | nnew (a b : Nat) (k : Int) | nrun (a : Nat)
+  deriving Repr
+
+inductive TOp where
+  | tnew (t : Nat) (V : List Int)
+  | tlen (t : Nat) | tget (t : Nat) (i : Int) | tlist (t : Nat)
+  | tsetd (t : Nat) (i k : Int) | tseti (t : Nat) (i k : Int) | tsetf (t : Nat) (i : Int) (L : List Int)
+  | elem (src : Bool) (t : Nat) (i j k : Int)
+  | tcopy (t u : Nat) | tassign (t u : Nat)
+  deriving Repr
+
+inductive Op where
+  | v (o : VOp)
+  | t (o : TOp)
+  deriving Repr
+
+/-- sizes of `FieldVector<double,n>` the harness builds just in time -/
+def fvSizes : List Nat := [1, 2, 3, 4, 5, 6, 9]
+/-- sizes of the precompiled `FieldVector<double,n>` classes (python/dune/common/registerfvector.cc) -/
+def fvSizesPre : List Nat := [0, 1, 2, 3, 4, 5, 6, 7, 8, 9, 10, 11, 12, 13, 14]
 
 def Kind.isVec : Kind → Bool
   | .tup _ _ => false
@@ -234,6 +322,368 @@ def Kind.isTup : Kind → Bool
 def Kind.scalarMode : Kind → Bool
   | .fv 1 => true
   | _ => false
+
+/-- the memory the harness lays a strided operand out in: an array filled with 77 in which entry `j` of the operand
+    sits at `off + j*s`; returns `(memory, off)` -/
+def stridedMem (s : Int) (L : List Int) : List Int × Int :=
+  let size := max 1 (L.length * s.natAbs)
+  let off : Int := if s < 0 then (size : Int) - 1 else 0
+  ((List.range L.length).foldl (fun m (j : Nat) => m.set (off + (j : Int) * s).toNat (L.getD j 0)) (List.replicate size 77), off)
+
+/-- how the bindings treat an operand of a given Python kind standing for a vector: converted through a constructor
+    (`ok`), rejected with `TypeError` (`type`), or not an operation of the bindings at all (`na`: NumPy takes over) -/
+def operandStatus (kd : Kind) (ok : OKind) (reflected : Bool) : OStat :=
+  match ok with
+  | .list => .ok
+  | .tuple => if !kd.isFv || reflected then .type else .ok
+  | .buf _ => if kd.isFv && !reflected then .ok else .na
+
+/-- the vector an operand turns into: for FieldVector through the list / tuple / buffer constructor, for DynamicVector
+    (lists only) through its list constructor -/
+def Kind.operand (kd : Kind) (ok : OKind) (L : List Int) : List Int :=
+  match kd, ok with
+  | .fv n, .buf s => constructBuf n (stridedMem s L).1 (stridedMem s L).2 s L.length
+  | .fv n, _ => constructLoop n L
+  | _, _ => dynConstructLoop L
+
+def Kind.construct (kd : Kind) (L : List Int) : List Int := kd.operand .list L
+
+def applySOp (w : SOp) (p q : Int) : Int :=
+  match w with
+  | .add => p + q
+  | .sub => p - q
+  | .mul => p * q
+  | .div => p / q
+
+/-- two views of one block that enumerate the same cells in the same order -/
+def sameSeq (a b : View) : Bool :=
+  a.len == b.len && (a.len == 0 || (a.off == b.off && (a.len == 1 || a.step == b.step)))
+
+def effNa : Eff := .obs "na"
+def effUnbound : Eff := .obs "unbound"
+def effSkip : Eff := .obs "skip"
+
+/-- result of an operation that yields a new vector `R` for register `x` (skipped when an entry leaves the exact range) -/
+def effNew (x : Nat) (R : List Int) : Eff := if !okVals R then effSkip else .newX x R
+/-- result of an in-place operation on the cells `b` -/
+def effWrite (b : Nat) (R : List Int) : Eff := if !okVals R then effSkip else .writeB b R
+
+/-- the effect of one bound vector operation (`kd` is `fv n` or `dyn`) -/
+def vecEff (kd : Kind) (s : State) : VOp → Eff
+  | .new x how L =>
+    match kd, how with
+    | .dyn, .args | .dyn, .iargs | .dyn, .fac => effNa
+    | .dyn, how =>
+      if !okVals L then effSkip else
+      match how with
+      | .list | .ilist => .newX x (dynConstructLoop L)
+      | .zero => .newX x []
+      | _ => .obs Err.type.show
+    | .fv n, how =>
+      if !okVals L then effSkip
+      else if how == .fac && L.length != n then effSkip
+      else match how with
+        | .badbuf => .obs Err.value.show
+        | .buf st => .newX x (constructBuf n (stridedMem st L).1 (stridedMem st L).2 st L.length)
+        | _ => .newX x (constructLoop n L)
+    | _, _ => effNa
+  | .copy x y | .mcopy x y =>
+    if !kd.isFv then effNa else
+    match s.xs y with
+    | none => effUnbound
+    | some b => .newX x (s.read b)
+  | .mcopya x y L =>
+    if !kd.isFv then effNa else
+    match s.xs y with
+    | none => effUnbound
+    | some b =>
+      if !okVals L then effSkip
+      else if L.isEmpty then .newX x (s.read b) else .newX x (kd.construct L)
+  | .alias x y =>
+    match s.xs y with
+    | none => effUnbound
+    | some b => .aliasX x b
+  | .binvv isSub x y z =>
+    match s.xs y, s.xs z with
+    | some by_, some bz =>
+      let A := s.read by_
+      let B := s.read bz
+      if A.length != B.length then effSkip else
+      effNew x (if isSub then vsub A B else vadd A B)
+    | _, _ => effUnbound
+  | .binvl isSub reflected ok x y L =>
+    match operandStatus kd ok reflected with
+    | .na => effNa
+    | st =>
+      match s.xs y with
+      | none => effUnbound
+      | some by_ =>
+        let A := s.read by_
+        if !okVals L then effSkip
+        else if !kd.isFv && L.length != A.length then effSkip else
+        let B := kd.operand ok L
+        let R := match isSub, reflected with
+          | false, false => vadd A B
+          | true, false => vsub A B
+          | false, true => vadd B A
+          | true, true => vsub B A
+        if !okVals R then effSkip
+        else if st == .type then .obs Err.type.show
+        else .newX x R
+  | .scal w isInt x y k =>
+    match s.xs y with
+    | none => effUnbound
+    | some by_ =>
+      let A := s.read by_
+      if !okInt k then effSkip else
+      match w with
+      | .div =>
+        if k == 0 || A.any (fun e => e % k != 0) then effSkip else effNew x (vdivExact k A)
+      | _ =>
+        let R := pyMul A k
+        if !okVals R then effSkip
+        -- FieldVector<K,1> * int: the int converts to a vector, the product is the dot product (a float)
+        else if isInt && kd.scalarMode then .obs ("f:" ++ toString (vdot A [k]))
+        else .newX x R
+  | .neg x y =>
+    match s.xs y with
+    | none => effUnbound
+    | some by_ => effNew x (pyNeg (s.read by_))
+  | .intscal isSub reflected isFloat x y k =>
+    match s.xs y with
+    | none => effUnbound
+    | some by_ =>
+      let A := s.read by_
+      if !okInt k then effSkip else
+      if kd.scalarMode then effNew x [pyScalar isSub reflected (A.getD 0 0) k]
+      else if isFloat then .obs Err.type.show
+      else if k != 0 then .obs Err.value.show
+      else if isSub && reflected then .newX x (pyRsubZero A)
+      else .aliasX x by_
+  | .inplaceV isSub x y =>
+    match s.xs x, s.xs y with
+    | some bx, some by_ =>
+      let A := s.read bx
+      let B := s.read by_
+      if A.length != B.length then effSkip else
+      effWrite bx (if isSub then vsub A B else vadd A B)
+    | _, _ => effUnbound
+  | .inplaceL isSub ok x L =>
+    match s.xs x with
+    | none => effUnbound
+    | some bx =>
+      match operandStatus kd ok false with
+      | .na => effNa
+      | st =>
+        let A := s.read bx
+        if !okVals L then effSkip
+        else if !kd.isFv && L.length != A.length then effSkip else
+        let B := kd.operand ok L
+        let R := if isSub then vsub A B else vadd A B
+        if !okVals R then effSkip
+        else if st == .type then .obs Err.type.show
+        else .writeB bx R
+  | .inplaceS w x k =>
+    match s.xs x with
+    | none => effUnbound
+    | some bx =>
+      let A := s.read bx
+      if !okInt k then effSkip else
+      match w with
+      | .add => effWrite bx (vaddScalar k A)
+      | .sub => effWrite bx (vsubScalar k A)
+      | .mul => effWrite bx (vscale k A)
+      | .div => if k == 0 || A.any (fun e => e % k != 0) then effSkip else effWrite bx (vdivExact k A)
+  | .assign x y =>
+    match s.xs x, s.xs y with
+    | some bx, some by_ => .writeB bx (s.read by_)
+    | _, _ => effUnbound
+  | .assignL ok x L =>
+    match operandStatus kd ok false with
+    | .na => effNa
+    | st =>
+      match s.xs x with
+      | none => effUnbound
+      | some bx =>
+        if !okVals L then effSkip
+        else if st == .type then .obs Err.type.show
+        else .writeB bx (kd.operand ok L)
+  | .set npidx x i k =>
+    match s.xs x with
+    | none => effUnbound
+    | some bx =>
+      if !okInt k then effSkip
+      else if npidx && (i < -TWO63 || i ≥ TWO63) then effSkip else
+      match setItem (s.read bx) i k with
+      | .error e => .obs e.show
+      | .ok v => .writeB bx v
+  | .get npidx x i =>
+    match s.xs x with
+    | none => effUnbound
+    | some bx =>
+      if npidx && (i < -TWO63 || i ≥ TWO63) then effSkip else
+      match getItem (s.read bx) i with
+      | .error e => .obs e.show
+      | .ok v => .obs (toString v)
+  | .len x =>
+    match s.xs x with
+    | none => effUnbound
+    | some bx => .obs (toString (s.read bx).length)
+  | .iter x =>
+    match s.xs x with
+    | none => effUnbound
+    | some bx => .obs (showInts (pyIter (s.read bx)))
+  | .str x =>
+    match s.xs x with
+    | none => effUnbound
+    | some bx => .obs (pyStr (s.read bx))
+  | .slice x i j st =>
+    if !kd.isFv then effNa else
+    match s.xs x with
+    | none => effUnbound
+    | some bx =>
+      let stp := st.getD 1
+      if stp == 0 then effSkip else
+      let r := sliceIdx (s.read bx).length i j stp
+      .obs (showInts (s.viewVals { blk := bx, off := r.1, step := stp, len := r.2 }))
+  | .cmpv neg x y =>
+    match s.xs x, s.xs y with
+    | some bx, some by_ =>
+      let A := s.read bx
+      let B := s.read by_
+      if A.length != B.length then effSkip else .obs (showBool ((A == B) != neg))
+    | _, _ => effUnbound
+  | .cmpl neg ok x L =>
+    match operandStatus kd ok false with
+    | .ok =>
+      match s.xs x with
+      | none => effUnbound
+      | some bx =>
+        let A := s.read bx
+        if !okVals L then effSkip
+        else if !kd.isFv && L.length != A.length then effSkip
+        else .obs (showBool ((A == kd.operand ok L) != neg))
+    | _ => effNa
+  | .norms x =>
+    match s.xs x with
+    | none => effUnbound
+    | some bx => let A := s.read bx; .obs (showInts [oneNorm A, infNorm A, twoNorm2 A])
+  | .dot x y =>
+    match s.xs x, s.xs y with
+    | some bx, some by_ =>
+      let A := s.read bx
+      let B := s.read by_
+      if A.length != B.length then effSkip else .obs (toString (vdot A B))
+    | _, _ => effUnbound
+  | .dotl ok x L =>
+    match operandStatus kd ok false with
+    | .na => effNa
+    | st =>
+      match s.xs x with
+      | none => effUnbound
+      | some bx =>
+        let A := s.read bx
+        if !okVals L then effSkip
+        else if !kd.isFv && L.length != A.length then effSkip
+        else if st == .type then .obs Err.type.show
+        else .obs (toString (vdot A (kd.operand ok L)))
+  | .float x =>
+    if !kd.scalarMode then effNa else
+    match s.xs x with
+    | none => effUnbound
+    | some bx => .obs (toString ((s.read bx).getD 0 0))
+  | .view a x =>
+    if !kd.isFv then effNa else
+    match s.xs x with
+    | none => effUnbound
+    | some bx => .bindA a (fullView bx (s.read bx).length)
+  | .npcopy a x =>
+    match s.xs x with
+    | none => effUnbound
+    | some bx => .newA a (s.read bx)
+  | .sl a x i j st =>
+    if !kd.isFv then effNa else
+    match s.xs x with
+    | none => effUnbound
+    | some bx =>
+      let stp := st.getD 1
+      if stp == 0 then effSkip else
+      let r := sliceIdx (s.read bx).length i j stp
+      .bindA a { blk := bx, off := r.1, step := stp, len := r.2 }
+  | .aget a i =>
+    match s.arrs a with
+    | none => effUnbound
+    | some v =>
+      if !okIdx i then effSkip else
+      match normIndex v.len i with
+      | none => .obs Err.index.show
+      | some p => .obs (toString ((s.read v.blk).getD (v.pos p) 0))
+  | .aset a i k =>
+    match s.arrs a with
+    | none => effUnbound
+    | some v =>
+      if !okInt k || !okIdx i then effSkip else
+      match normIndex v.len i with
+      | none => .obs Err.index.show
+      | some p => .writeCell v p k
+  | .alist a =>
+    match s.arrs a with
+    | none => effUnbound
+    | some v => .obs (showInts (s.viewVals v))
+  | .nscale a k =>
+    match s.arrs a with
+    | none => effUnbound
+    | some v =>
+      let R := vscale k (s.viewVals v)
+      if !okInt k || !okVals R then effSkip else .writeView v R
+  | .nset a i k =>
+    match s.arrs a with
+    | none => effUnbound
+    | some v =>
+      if !okInt k || i < 0 || i ≥ (v.len : Int) then effSkip else .writeCell v i.toNat k
+  | .nget a i =>
+    match s.arrs a with
+    | none => effUnbound
+    | some v =>
+      if i < 0 || i ≥ (v.len : Int) then effSkip
+      else .obs (toString ((s.read v.blk).getD (v.pos i.toNat) 0))
+  | .nnorms a =>
+    match s.arrs a with
+    | none => effUnbound
+    | some v =>
+      let A := s.viewVals v
+      .obs (showInts [(A.length : Int), oneNorm A, infNorm A, twoNorm2 A])
+  | .naxpy a k b =>
+    match s.arrs a, s.arrs b with
+    | some va, some vb =>
+      if va.len != vb.len || !okInt k then effSkip
+      else if va.blk == vb.blk && !sameSeq va vb then effSkip else
+      let R := vadd (s.viewVals va) (vscale k (s.viewVals vb))
+      if !okVals R then effSkip else .writeView va R
+    | _, _ => effUnbound
+  | .nadd a b =>
+    match s.arrs a, s.arrs b with
+    | some va, some vb =>
+      if va.len != vb.len then effSkip
+      else if va.blk == vb.blk && !sameSeq va vb then effSkip else
+      let R := vadd (s.viewVals va) (s.viewVals vb)
+      if !okVals R then effSkip else .writeView va R
+    | _, _ => effUnbound
+  | .nnew a b k =>
+    match s.arrs b with
+    | none => effUnbound
+    | some vb =>
+      let R := vscale k (s.viewVals vb)
+      if !okInt k || !okVals R then effSkip else .newA a R
+  | .nrun a =>
+    match s.arrs a with
+    | none => effUnbound
+    | some v =>
+      let A := s.viewVals v
+      let R := (List.range A.length).map fun j => A.getD j 0 + (j : Int)
+      if !okVals R then effSkip else .writeView v R
+
+/-! ## tuple vectors -/
 
 def SlotTy.width : SlotTy → Nat
   | .f n => n
@@ -285,332 +735,12 @@ def assignSlots : List Slot → List Slot → State → State × List Slot
   | .i _ :: T, .i v :: U, s => let (s2, T') := assignSlots T U s; (s2, .i v :: T')
   | T, _, s => (s, T)
 
-/-- two views of one block that enumerate the same cells in the same order -/
-def sameSeq (a b : View) : Bool :=
-  a.len == b.len && (a.len == 0 || (a.off == b.off && (a.len == 1 || a.step == b.step)))
-
-def applySOp (w : SOp) (p q : Int) : Int :=
-  match w with
-  | .add => p + q
-  | .sub => p - q
-  | .mul => p * q
-  | .div => p / q
-
-/-- one bound operation: new state and the observation the harness prints -/
-def step (kd : Kind) (s : State) (op : Op) : State × String :=
+/-- one bound tuple-vector operation (`kd` is `tup shape byRef`) -/
+def tupStep (kd : Kind) (s : State) (op : TOp) : State × String :=
   let na := (s, "na")
   let unbound := (s, "unbound")
   let skip := (s, "skip")
-  let newVec (s : State) (x : Nat) (v : List Int) : State × String :=
-    let (s1, b) := s.alloc v
-    (s1.bindX x b, showInts v)
   match op with
-  | .new x how L =>
-    if !kd.isVec then na else
-    match kd, how with
-    | .dyn, .list => if !okVals L then skip else newVec s x L
-    | .dyn, .zero => newVec s x []
-    | .dyn, _ => na
-    | .fv n, how =>
-      if !okVals L then skip
-      else if how == .fac && L.length != n then skip
-      else newVec s x (constructLoop n L)
-    | _, _ => na
-  | .copy x y | .mcopy x y =>
-    if !kd.isVec then na else if !kd.isFv then na else
-    match s.xs y with
-    | none => unbound
-    | some b => newVec s x (s.read b)
-  | .alias x y =>
-    if !kd.isVec then na else
-    match s.xs y with
-    | none => unbound
-    | some b => (s.bindX x b, showInts (s.read b))
-  | .binvv isSub x y z =>
-    if !kd.isVec then na else
-    match s.xs y, s.xs z with
-    | some by_, some bz =>
-      let A := s.read by_
-      let B := s.read bz
-      if A.length != B.length then skip else
-      let R := if isSub then vsub A B else vadd A B
-      if !okVals R then skip else newVec s x R
-    | _, _ => unbound
-  | .binvl isSub reflected x y L =>
-    if !kd.isVec then na else
-    match s.xs y with
-    | none => unbound
-    | some by_ =>
-      let A := s.read by_
-      if !okVals L then skip
-      else if !kd.isFv && L.length != A.length then skip else
-      let B := kd.construct L
-      let R := match isSub, reflected with
-        | false, false => vadd A B
-        | true, false => vsub A B
-        | false, true => vadd B A
-        | true, true => vsub B A
-      if !okVals R then skip else newVec s x R
-  | .scal w x y k =>
-    if !kd.isVec then na else
-    match s.xs y with
-    | none => unbound
-    | some by_ =>
-      let A := s.read by_
-      if !okInt k then skip else
-      match w with
-      | .div =>
-        if k == 0 || A.any (fun e => e % k != 0) then skip else
-        let R := vdivExact k A
-        if !okVals R then skip else newVec s x R
-      | _ =>
-        let R := pyMul A k
-        if !okVals R then skip else newVec s x R
-  | .neg x y =>
-    if !kd.isVec then na else
-    match s.xs y with
-    | none => unbound
-    | some by_ =>
-      let R := pyNeg (s.read by_)
-      if !okVals R then skip else newVec s x R
-  | .intscal isSub reflected x y k =>
-    if !kd.isVec then na else
-    match s.xs y with
-    | none => unbound
-    | some by_ =>
-      let A := s.read by_
-      if !okInt k then skip else
-      if kd.scalarMode then
-        let a0 := A.getD 0 0
-        let r := match isSub, reflected with
-          | false, false => a0 + k
-          | true, false => a0 - k
-          | false, true => k + a0
-          | true, true => k - a0
-        if !okVals [r] then skip else newVec s x [r]
-      else if k != 0 then (s, Err.value.show)
-      else if isSub && reflected then newVec s x (pyRsubZero A)
-      else (s.bindX x by_, showInts A)
-  | .inplaceV isSub x y =>
-    if !kd.isVec then na else
-    match s.xs x, s.xs y with
-    | some bx, some by_ =>
-      let A := s.read bx
-      let B := s.read by_
-      if A.length != B.length then skip else
-      let R := if isSub then vsub A B else vadd A B
-      if !okVals R then skip else ((s.write bx R), showInts R)
-    | _, _ => unbound
-  | .inplaceL isSub x L =>
-    if !kd.isVec then na else
-    match s.xs x with
-    | none => unbound
-    | some bx =>
-      let A := s.read bx
-      if !okVals L then skip
-      else if !kd.isFv && L.length != A.length then skip else
-      let B := kd.construct L
-      let R := if isSub then vsub A B else vadd A B
-      if !okVals R then skip else ((s.write bx R), showInts R)
-  | .inplaceS w x k =>
-    if !kd.isVec then na else
-    match s.xs x with
-    | none => unbound
-    | some bx =>
-      let A := s.read bx
-      if !okInt k then skip else
-      let go (R : List Int) : State × String := if !okVals R then skip else ((s.write bx R), showInts R)
-      match w with
-      | .add => go (vaddScalar k A)
-      | .sub => go (vsubScalar k A)
-      | .mul => go (vscale k A)
-      | .div => if k == 0 || A.any (fun e => e % k != 0) then skip else go (vdivExact k A)
-  | .assign x y =>
-    if !kd.isVec then na else
-    match s.xs x, s.xs y with
-    | some bx, some by_ => let v := s.read by_; (s.write bx v, showInts v)
-    | _, _ => unbound
-  | .set x i k =>
-    if !kd.isVec then na else
-    match s.xs x with
-    | none => unbound
-    | some bx =>
-      if !okInt k || !okIdx i then skip else
-      match setItem (s.read bx) i k with
-      | .error e => (s, e.show)
-      | .ok v => (s.write bx v, showInts v)
-  | .get x i =>
-    if !kd.isVec then na else
-    match s.xs x with
-    | none => unbound
-    | some bx =>
-      if !okIdx i then skip else
-      match getItem (s.read bx) i with
-      | .error e => (s, e.show)
-      | .ok v => (s, toString v)
-  | .len x =>
-    if !kd.isVec then na else
-    match s.xs x with
-    | none => unbound
-    | some bx => (s, toString (s.read bx).length)
-  | .iter x | .str x =>
-    if !kd.isVec then na else
-    match s.xs x with
-    | none => unbound
-    | some bx => (s, showInts (s.read bx))
-  | .slice x i j st =>
-    if !kd.isVec then na else if !kd.isFv then na else
-    match s.xs x with
-    | none => unbound
-    | some bx =>
-      let stp := st.getD 1
-      if stp == 0 then skip else
-      let (start, len) := sliceIdx (s.read bx).length i j stp
-      (s, showInts (s.viewVals { blk := bx, off := start, step := stp, len := len }))
-  | .cmpv neg x y =>
-    if !kd.isVec then na else
-    match s.xs x, s.xs y with
-    | some bx, some by_ =>
-      let A := s.read bx
-      let B := s.read by_
-      if A.length != B.length then skip else (s, showBool ((A == B) != neg))
-    | _, _ => unbound
-  | .cmpl neg x L =>
-    if !kd.isVec then na else
-    match s.xs x with
-    | none => unbound
-    | some bx =>
-      let A := s.read bx
-      if !okVals L then skip
-      else if !kd.isFv && L.length != A.length then skip
-      else (s, showBool ((A == kd.construct L) != neg))
-  | .norms x =>
-    if !kd.isVec then na else
-    match s.xs x with
-    | none => unbound
-    | some bx => let A := s.read bx; (s, showInts [oneNorm A, infNorm A, twoNorm2 A])
-  | .dot x y =>
-    if !kd.isVec then na else
-    match s.xs x, s.xs y with
-    | some bx, some by_ =>
-      let A := s.read bx
-      let B := s.read by_
-      if A.length != B.length then skip else (s, toString (vdot A B))
-    | _, _ => unbound
-  | .dotl x L =>
-    if !kd.isVec then na else
-    match s.xs x with
-    | none => unbound
-    | some bx =>
-      let A := s.read bx
-      if !okVals L then skip
-      else if !kd.isFv && L.length != A.length then skip
-      else (s, toString (vdot A (kd.construct L)))
-  | .float x =>
-    if !kd.isVec then na else if !kd.scalarMode then na else
-    match s.xs x with
-    | none => unbound
-    | some bx => (s, toString ((s.read bx).getD 0 0))
-  | .view a x =>
-    if !kd.isVec then na else if !kd.isFv then na else
-    match s.xs x with
-    | none => unbound
-    | some bx => (s.bindA a (fullView bx (s.read bx).length), showInts (s.read bx))
-  | .npcopy a x =>
-    if !kd.isVec then na else
-    match s.xs x with
-    | none => unbound
-    | some bx =>
-      let v := s.read bx
-      let (s1, b) := s.alloc v
-      (s1.bindA a (fullView b v.length), showInts v)
-  | .sl a x i j st =>
-    if !kd.isVec then na else if !kd.isFv then na else
-    match s.xs x with
-    | none => unbound
-    | some bx =>
-      let stp := st.getD 1
-      if stp == 0 then skip else
-      let (start, len) := sliceIdx (s.read bx).length i j stp
-      let v : View := { blk := bx, off := start, step := stp, len := len }
-      (s.bindA a v, showInts (s.viewVals v))
-  | .aget a i =>
-    if !kd.isVec then na else
-    match s.arrs a with
-    | none => unbound
-    | some v =>
-      if !okIdx i then skip else
-      match normIndex v.len i with
-      | none => (s, Err.index.show)
-      | some p => (s, toString ((s.read v.blk).getD (v.pos p) 0))
-  | .aset a i k =>
-    if !kd.isVec then na else
-    match s.arrs a with
-    | none => unbound
-    | some v =>
-      if !okInt k || !okIdx i then skip else
-      match normIndex v.len i with
-      | none => (s, Err.index.show)
-      | some p =>
-        let s1 := s.write v.blk ((s.read v.blk).set (v.pos p) k)
-        (s1, showInts (s1.viewVals v))
-  | .alist a =>
-    if !kd.isVec then na else
-    match s.arrs a with
-    | none => unbound
-    | some v => (s, showInts (s.viewVals v))
-  | .nscale a k =>
-    if !kd.isVec then na else
-    match s.arrs a with
-    | none => unbound
-    | some v =>
-      let R := vscale k (s.viewVals v)
-      if !okInt k || !okVals R then skip else
-      let s1 := s.viewWrite v R
-      (s1, showInts (s1.viewVals v))
-  | .nset a i k =>
-    if !kd.isVec then na else
-    match s.arrs a with
-    | none => unbound
-    | some v =>
-      if !okInt k || i < 0 || i ≥ (v.len : Int) then skip else
-      let s1 := s.write v.blk ((s.read v.blk).set (v.pos i.toNat) k)
-      (s1, showInts (s1.viewVals v))
-  | .nget a i =>
-    if !kd.isVec then na else
-    match s.arrs a with
-    | none => unbound
-    | some v =>
-      if i < 0 || i ≥ (v.len : Int) then skip
-      else (s, toString ((s.read v.blk).getD (v.pos i.toNat) 0))
-  | .nnorms a =>
-    if !kd.isVec then na else
-    match s.arrs a with
-    | none => unbound
-    | some v =>
-      let A := s.viewVals v
-      (s, showInts [(A.length : Int), oneNorm A, infNorm A, twoNorm2 A])
-  | .naxpy a k b =>
-    if !kd.isVec then na else
-    match s.arrs a, s.arrs b with
-    | some va, some vb =>
-      if va.len != vb.len || !okInt k then skip
-      else if va.blk == vb.blk && !sameSeq va vb then skip else
-      let R := vadd (s.viewVals va) (vscale k (s.viewVals vb))
-      if !okVals R then skip else
-      let s1 := s.viewWrite va R
-      (s1, showInts (s1.viewVals va))
-    | _, _ => unbound
-  | .nrun a =>
-    if !kd.isVec then na else
-    match s.arrs a with
-    | none => unbound
-    | some v =>
-      let A := s.viewVals v
-      let R := (List.range A.length).map fun j => A.getD j 0 + (j : Int)
-      if !okVals R then skip else
-      let s1 := s.viewWrite v R
-      (s1, showInts (s1.viewVals v))
   | .tnew t V =>
     match kd with
     | .tup sh byRef =>
@@ -629,12 +759,11 @@ def step (kd : Kind) (s : State) (op : Op) : State × String :=
     match s.ts t with
     | none => unbound
     | some T =>
-      if i < 0 || i > IBOUND then skip
-      else if i.toNat < T.length then
-        match T[i.toNat]? with
+      -- the index is a std::size_t: negative and too large Python ints are rejected with TypeError
+      if i < 0 || i ≥ TWO64 then (s, Err.type.show)
+      else match T[i.toNat]? with
         | some sl => (s, showSlot s sl)
         | none => (s, Err.index.show)
-      else (s, Err.index.show)
   | .tlist t =>
     if !kd.isTup then na else
     match s.ts t with
@@ -645,7 +774,8 @@ def step (kd : Kind) (s : State) (op : Op) : State × String :=
     match s.ts t with
     | none => unbound
     | some T =>
-      if i < 0 || i > IBOUND then skip else if !okInt k then skip else
+      if !okInt k then skip
+      else if i < 0 || i ≥ TWO64 then (s, Err.type.show) else
       match T[i.toNat]? with
       | none => (s, Err.index.show)
       | some (.d _) =>
@@ -658,7 +788,8 @@ def step (kd : Kind) (s : State) (op : Op) : State × String :=
     match s.ts t with
     | none => unbound
     | some T =>
-      if i < 0 || i > IBOUND then skip else if !okInt k then skip else
+      if !okInt k then skip
+      else if i < 0 || i ≥ TWO64 then (s, Err.type.show) else
       match T[i.toNat]? with
       | none => (s, Err.index.show)
       | some (.d _) =>
@@ -675,8 +806,8 @@ def step (kd : Kind) (s : State) (op : Op) : State × String :=
     match s.ts t with
     | none => unbound
     | some T =>
-      if i < 0 || i > IBOUND then skip
-      else if !okVals L || !fvSizes.contains L.length || L.length < 2 then skip else
+      if !okVals L || !(L.length == 2 || L.length == 3) then skip
+      else if i < 0 || i ≥ TWO64 then (s, Err.type.show) else
       match T[i.toNat]? with
       | none => (s, Err.index.show)
       | some (.f b) =>
@@ -688,7 +819,7 @@ def step (kd : Kind) (s : State) (op : Op) : State × String :=
     if !kd.isTup then na else
     match s.ts t, (if src then s.ss t else s.ts t) with
     | some Tt, some T =>
-      if i < 0 || i ≥ (T.length : Int) || !okInt k || !okIdx j then skip else
+      if i < 0 || i ≥ (T.length : Int) || !okInt k then skip else
       match T[i.toNat]? with
       | some (.f b) =>
         (match setItem (s.read b) j k with
@@ -714,6 +845,11 @@ def step (kd : Kind) (s : State) (op : Op) : State × String :=
       let s2 := { s1 with ts := upd s1.ts t (some T') }
       (s2, showSlots s2 T')
     | _, _ => unbound
+
+/-- one bound operation: new state and the observation the harness prints -/
+def step (kd : Kind) (s : State) : Op → State × String
+  | .v o => if !kd.isVec then (s, "na") else (vecEff kd s o).apply s
+  | .t o => tupStep kd s o
 
 /-- run a program, collecting the observations -/
 def run (kd : Kind) : State → List Op → State × List String
